@@ -31,7 +31,7 @@ pub fn parse_argv(argv: &[String]) -> Result<yash_cli::startup::args::Run, Strin
 }
 
 /// Replica of `yash_cli::run_as_shell_process` (private there), generic over the system, without
-/// rcfile handling (the harness never runs interactive shells). `prepare` is called after
+/// rcfile handling. `prepare` is called after
 /// `configure_environment` (built-ins and variables are set up) and before input is prepared.
 pub async fn shell_main<S: Sys>(
     env: &mut Env<S>,
@@ -68,7 +68,12 @@ pub async fn shell_main<S: Sys>(
             return;
         }
     };
-    let result = read_eval_loop(&ref_env, &mut { lexer }).await;
+    let is_interactive = ref_env.borrow().options.get(yash_env::option::Interactive) == yash_env::option::On;
+    let result = if is_interactive {
+        yash_semantics::interactive_read_eval_loop(&ref_env, &mut { lexer }).await
+    } else {
+        read_eval_loop(&ref_env, &mut { lexer }).await
+    };
     let env = ref_env.into_inner();
     env.apply_result(result);
     match result {
